@@ -173,6 +173,7 @@ fn gen_entry(rng: &mut Rng, nclasses: u64) -> Entry {
 
 fn main() {
     let args = parse_args();
+    silence_panics();
     // tie the pool to the real comparator
     for (c1, t1) in POOL {
         for (c2, t2) in POOL {
@@ -191,8 +192,17 @@ fn main() {
     let mut nontrivial = 0u64;
     let mut samples = vec![];
 
+    let mut panicked: Vec<String> = vec![];
     let mut emit_q = |which: &str, start: u64, ops: &[QOp], w: &mut CaseWriter| {
-        let outs = if which == "event_queue" { run_event_queue(start, ops) } else { run_map_queue(start, ops) };
+        let outs = catch(std::panic::AssertUnwindSafe(|| {
+            if which == "event_queue" { run_event_queue(start, ops) } else { run_map_queue(start, ops) }
+        }))
+        .unwrap_or_else(|msg| {
+            // a panic inside the implementation: the case is reported with no outputs at all, which
+            // neither the model nor the oracle accepts
+            panicked.push(format!("{} start={} ops={:?}: PANIC {}", which, start, ops, msg));
+            vec![]
+        });
         let term = format!(
             "CaseQueue {} {} {}",
             start,
@@ -288,7 +298,7 @@ fn main() {
         for _ in 0..12 {
             ops.push(WOp::Pop);
         }
-        let outs = run_write_queues(&ops);
+        let outs = catch(std::panic::AssertUnwindSafe(|| run_write_queues(&ops))).unwrap_or_default();
         let term = format!("CaseWrite {} {}", coq_list(ops.iter().map(wop_coq)), coq_list(outs.iter().cloned()));
         let human = format!("write_queues ops={:?} impl={:?}", ops, outs);
         *kinds.entry("write_queues".into()).or_default() += 1;
@@ -303,6 +313,7 @@ fn main() {
         ("evaluations", J::I(w.len() as i128)),
         ("distinct_nontrivial", J::I(nontrivial as i128)),
         ("rule", J::s("push/pop interleavings on the real EventQueue<u64,u32> (exact keys) and MapOperationQueue (keys from a pool of Recon texts in known equivalence classes, asserted against compare_recon_values; spellings vary per push; values of varying length to take both capacity branches), 30% of the queues start with an epoch counter at or near usize::MAX (wrap-around executed on the real code), every case ends by draining; WriteQueues<u64> with sync requests over random key subsets; popped keys are reported by class; non-trivial = some push replaces a queued entry in place (queues) / both sync and standard events popped (write queues); distinct by rendered case")),
+        ("implementation_panics", J::I(panicked.len() as i128)),
         ("structures", J::counts(&kinds)),
         ("samples", J::A(samples)),
     ]);
